@@ -467,7 +467,13 @@ impl Runner {
                             }
                             let mut t = Tape::new(&tape);
                             let case = decode(&mut t);
+                            let t0 = Instant::now();
                             let v = run_test(test, &case);
+                            let dt = t0.elapsed().as_secs_f64();
+                            if dt > 3.0 {
+                                let sv = serde_json::to_string(&case).unwrap_or_default();
+                                eprintln!("note: slow case ({dt:.1}s): {}", &sv[..sv.len().min(1500)]);
+                            }
                             let counting = !*failed.borrow();
                             if v.discard {
                                 if counting {
